@@ -46,7 +46,7 @@ def check(ctx):
     # ---------------- the traversal is seeded with exactly the requested keys (an empty request stays empty)
     ga_ = mod.func("get_async")
     ss = [c for c in calls(ga_, "start_state_from_dask")]
-    ok = len(ss) == 1 and unparse(kwarg(ss[0], "keys")) == "results" and unparse(ss[0].args[0]) == "dsk"
+    ok = len(ss) == 1 and unparse(kwarg(ss[0], "keys")) == "results" and eqv(ss[0].args[0], "dsk")
     ctx.ob("REACH.needed.seed", ga_, "start_state_from_dask(dsk, keys=results, ...): the set of requested keys, unmodified", ok, "" if ok else f"seeded with `{unparse(kwarg(ss[0], 'keys')) if ss else None}`: an empty request is turned into 'all keys' and tasks nobody asked for are executed")
 
 
